@@ -59,6 +59,135 @@ impl Leg for Random {
     }
 }
 
+/// giant sequences (beyond 2^16 / 2^20 bases, offsets shifted by a leading gap) with windows up to 31
+pub struct Giant;
+impl Leg for Giant {
+    type Case = super::c09::GiantCase;
+    const NAME: &'static str = "giant-sequences";
+    fn strategy(tier: Tier) -> BoxedStrategy<Self::Case> {
+        let (lo, hi) = (66_000, tier.pick(400_000, 3_000_000));
+        (gen::wm_strategy(31, 31), prop_oneof![1 => gen::giant(lo, hi, b"ACGTN".to_vec()), 1 => gen::giant_random(lo, hi, b"ACGTNn".to_vec())], prop_oneof![3 => Just(0usize), 1 => 1usize..=70])
+            .prop_map(|((w, m), giant, lead_gap)| super::c09::GiantCase { giant, wmode: super::c09::WMode::Small(w - m), m, lead_gap })
+            .boxed()
+    }
+    fn check(c: &Self::Case) -> Verdict {
+        let mut v = Verdict::new();
+        let seq = c.seq();
+        let (w, m) = (c.w(seq.len()), c.m);
+        let want = model::minimiser_runs_fast(&seq, w, m);
+        v.class(c.giant.label());
+        v.class_if(seq.len() > (1 << 20), "len>2^20");
+        v.nontrivial = !want.is_empty();
+        let plain: Vec<(u64, usize, usize)> = MinimiserGenerator::new(&seq, w, m).collect();
+        let mut runs: Vec<(u64, usize, usize)> = Vec::new();
+        let mut concat: Vec<u64> = Vec::new();
+        for (a, b, e, ks) in KmerMinimiserGenerator::new(&seq, w, m) {
+            runs.push((a, b, e));
+            concat.extend(ks);
+        }
+        if runs != plain {
+            let p = runs.iter().zip(plain.iter()).position(|(a, b)| a != b).unwrap_or(runs.len().min(plain.len()));
+            v.fail("runs-differ-from-plain", format!("{} runs vs {} of the plain iterator, first difference at run {}: {:?} vs {:?} (w={}, m={})", runs.len(), plain.len(), p, runs.get(p), plain.get(p), w, m));
+            return v;
+        }
+        let mut vv = Verdict::new();
+        super::c09::compare_big(&mut vv, &runs, &want, w, m);
+        if let Some(f) = vv.fail {
+            v.fail(f.sig, f.msg);
+            return v;
+        }
+        let mut wmers: Vec<u64> = Vec::with_capacity(concat.len());
+        model::for_each_window(&seq, w, |_, f, r| wmers.push(f.min(r)));
+        if concat != wmers {
+            let p = concat.iter().zip(wmers.iter()).position(|(a, b)| a != b).unwrap_or(concat.len().min(wmers.len()));
+            let sig = if concat.len() < wmers.len() { "wmers-lost" } else if concat.len() > wmers.len() { "wmers-extra" } else { "wmers-differ" };
+            v.fail(sig, format!("concatenated k-mer lists ({} items) != canonical {}-mers of the input ({} items), first difference at item {}", concat.len(), w, wmers.len(), p));
+        }
+        v
+    }
+}
+
+/// the raw bytes 0x00-0x03 (which the plain iterator reads as pre-encoded bases) may occur: only the
+/// clauses that need no definition of a base are checked - same runs as the plain iterator, and as many
+/// w-mers as the runs hold windows
+pub struct RawBytes;
+impl Leg for RawBytes {
+    type Case = Case;
+    const NAME: &'static str = "raw-bytes-differential";
+    fn strategy(tier: Tier) -> BoxedStrategy<Case> {
+        (super::c09::strategy(tier, 31, 31), proptest::collection::vec((any::<u16>(), 0u8..=3), 1..=6))
+            .prop_map(|(mut c, ins)| {
+                for (p, b) in ins {
+                    if !c.seq.0.is_empty() {
+                        let i = crate::util::idx16(p, c.seq.0.len());
+                        c.seq.0[i] = b;
+                    }
+                }
+                c.min_len = 0;
+                c
+            })
+            .boxed()
+    }
+    fn check(c: &Case) -> Verdict {
+        let mut v = Verdict::new();
+        let seq = &c.seq.0;
+        let plain: Vec<(u64, usize, usize)> = MinimiserGenerator::new(seq, c.w, c.m).collect();
+        let full: Vec<(u64, usize, usize, Vec<u64>)> = KmerMinimiserGenerator::new(seq, c.w, c.m).collect();
+        let runs: Vec<(u64, usize, usize)> = full.iter().map(|r| (r.0, r.1, r.2)).collect();
+        v.nontrivial = !plain.is_empty() && seq.iter().any(|&b| b < 4);
+        v.class("raw-bytes-0-3");
+        if runs != plain {
+            v.fail("runs-differ-from-plain", format!("with raw bytes 0x00-0x03 in the input: runs of the k-mer-reporting iterator {:?} differ from the plain iterator {:?} (w={}, m={})", runs, plain, c.w, c.m));
+            return v;
+        }
+        let windows: usize = plain.iter().map(|r| r.2 - r.1 - c.w + 1).sum();
+        let listed: usize = full.iter().map(|r| r.3.len()).sum();
+        if windows != listed {
+            v.fail(if listed < windows { "wmers-lost" } else { "wmers-extra" }, format!("the runs hold {} windows but {} w-mers are listed (w={}, m={})", windows, listed, c.w, c.m));
+        }
+        v
+    }
+}
+
+/// offsets beyond 2^32 (see c09.rs): both iterators against the tail's runs shifted by the gap
+pub struct Far;
+impl Leg for Far {
+    type Case = super::c09::FarCase;
+    const NAME: &'static str = "offsets-beyond-2^32";
+    fn strategy(_tier: Tier) -> BoxedStrategy<Self::Case> {
+        super::c09::far_strategy(31)
+    }
+    fn check(c: &Self::Case) -> Verdict {
+        let mut v = Verdict::new();
+        let want = c.want();
+        v.nontrivial = want.iter().any(|r| r.2 > (1usize << 32));
+        v.class("offsets-beyond-2^32");
+        let seq = c.seq();
+        let plain: Vec<(u64, usize, usize)> = MinimiserGenerator::new(&seq, c.w, c.m).collect();
+        let mut runs: Vec<(u64, usize, usize)> = Vec::new();
+        let mut concat: Vec<u64> = Vec::new();
+        for (a, b, e, ks) in KmerMinimiserGenerator::new(&seq, c.w, c.m) {
+            runs.push((a, b, e));
+            concat.extend(ks);
+        }
+        if runs != plain {
+            let p = runs.iter().zip(plain.iter()).position(|(a, b)| a != b).unwrap_or(runs.len().min(plain.len()));
+            v.fail("runs-differ-from-plain", format!("beyond 2^32: first difference at run {}: {:?} vs plain {:?} (w={}, m={})", p, runs.get(p), plain.get(p), c.w, c.m));
+            return v;
+        }
+        let mut vv = Verdict::new();
+        super::c09::compare_big(&mut vv, &runs, &want, c.w, c.m);
+        if let Some(f) = vv.fail {
+            v.fail(f.sig, f.msg);
+            return v;
+        }
+        if concat != model::canonical_stream(&c.tail.0, c.w) {
+            v.fail("wmers-differ", "beyond 2^32: the concatenated k-mer lists differ from the canonical w-mers of the tail");
+        }
+        v
+    }
+}
+
 /// first calls of a fresh process made by several threads at once
 pub struct Cold;
 impl Leg for Cold {
@@ -90,12 +219,22 @@ pub fn run(ctx: &mut Ctx) {
     );
     let n = ctx.share(ctx.tier.pick(60_000, 2_000_000));
     ctx.run_leg::<Random>(n, false, 4000);
+    let n = ctx.share(ctx.tier.pick(20_000, 400_000));
+    ctx.run_leg::<RawBytes>(n, false, 2000);
+    let n = ctx.share(ctx.tier.pick(64, 1_600));
+    ctx.run_leg::<Giant>(n, false, 12);
+    if super::c09::far_enabled(ctx) {
+        ctx.run_leg::<Far>(2, false, 0);
+    }
 }
 
 pub fn replay(leg: &str, case: &serde_json::Value) -> Option<Result<Verdict, String>> {
     match leg {
         "exhaustive" | "random" => Some(crate::engine::replay_leg::<Random>(case)),
         "cold-start-threads" => Some(crate::engine::replay_leg::<Cold>(case)),
+        "giant-sequences" => Some(crate::engine::replay_leg::<Giant>(case)),
+        "offsets-beyond-2^32" => Some(crate::engine::replay_leg::<Far>(case)),
+        "raw-bytes-differential" => Some(crate::engine::replay_leg::<RawBytes>(case)),
         _ => None,
     }
 }
